@@ -4,9 +4,12 @@
   walk_terminates_bound, walkCont_tiles and the counterexamples for lengths 0 / -1 and for a range that ends at
   the top of the address space.  Per-CPU theorems (RV32I): rv32i_len_bounds, rv32i_decode_local,
   rv32i_text_fits, rv32i_walk_tiles.
+  MSP430 (NakenVerif.Msp430.DisProps, DisLocal): msp430_len_bounds, msp430_decode_local, msp430_text_fits,
+  msp430_walk_tiles, msp430_walk_tiles_disasm, table_dis_types, table_instr_short
 -/
 import NakenVerif.Common.Walk
 import NakenVerif.Riscv.Props
+import NakenVerif.Msp430.Fixpoint
 namespace NakenVerif.Walk
 
 /-- non-vacuity: a concrete tiling (lengths 4, 2, 2, 4 …) -/
